@@ -708,6 +708,164 @@ def gen_observers(repo):
 
 GENERATORS["ObserversGen"] = gen_observers
 
+# ---------------------------------------------------------------------------------------------------------------------------
+# The generator bodies (_iterator) of NoneCheckpointSchedule, SingleMemoryStorageSchedule and SingleDiskStorageSchedule, translated
+# into the deep-embedded language of coq/Model/GenLang.v.  Gen/BasicGen.v states that each translated program IS the program
+# Proofs/GenBasic.v proves equivalent (step for step, under every history of next() and finalize()) to the model Online.v.
+GEXN = {"RuntimeError": "RuntimeError", "ValueError": "ValueError", "TypeError": "TypeError"}
+LOCALS = {"n0": "false", "n1": "true"}
+
+
+class GenTr:
+    def z(self, e):
+        if isinstance(e, ast.Constant) and isinstance(e.value, int) and not isinstance(e.value, bool):
+            return "(ZC %s)" % (str(e.value) if e.value >= 0 else "(%d)" % e.value)
+        if isinstance(e, ast.Attribute) and isinstance(e.value, ast.Name) and e.value.id == "sys" and e.attr == "maxsize":
+            return "ZMaxsize"
+        a = _self_attr(e)
+        if a == "_n":
+            return "ZN"
+        if a == "_r":
+            return "ZR"
+        if a == "_max_n":
+            return "ZMax"
+        if isinstance(e, ast.Name) and e.id in LOCALS:
+            return "(ZL %s)" % LOCALS[e.id]
+        if isinstance(e, ast.BinOp) and isinstance(e.op, ast.Add):
+            return "(ZAdd %s %s)" % (self.z(e.left), self.z(e.right))
+        if isinstance(e, ast.BinOp) and isinstance(e.op, ast.Sub):
+            return "(ZSub %s %s)" % (self.z(e.left), self.z(e.right))
+        raise Untranslatable("integer expression " + ast.dump(e)[:80])
+
+    def b(self, e):
+        if isinstance(e, ast.Constant) and e.value is True:
+            return "BTrue"
+        if _self_attr(e) == "_move_data":
+            return "BMove"
+        if isinstance(e, ast.Compare) and len(e.ops) == 1:
+            op, l, r = e.ops[0], e.left, e.comparators[0]
+            if _self_attr(l) == "_max_n" and isinstance(r, ast.Constant) and r.value is None and isinstance(op, (ast.Is, ast.IsNot)):
+                return "BMaxIsNone" if isinstance(op, ast.Is) else "BMaxNotNone"
+            for k, nm in ((ast.Eq, "BEq"), (ast.Lt, "BLt"), (ast.Gt, "BGt")):
+                if isinstance(op, k):
+                    return "(%s %s %s)" % (nm, self.z(l), self.z(r))
+        raise Untranslatable("condition " + ast.dump(e)[:80])
+
+    def bool_c(self, e):
+        if isinstance(e, ast.Constant) and isinstance(e.value, bool):
+            return "true" if e.value else "false"
+        raise Untranslatable("boolean constant " + ast.dump(e)[:60])
+
+    def st_c(self, e):
+        if _is_st_const(e):
+            return e.attr
+        raise Untranslatable("storage constant " + ast.dump(e)[:60])
+
+    def action(self, c):
+        if not (isinstance(c, ast.Call) and isinstance(c.func, ast.Name) and not c.keywords):
+            raise Untranslatable("yielded value " + ast.dump(c)[:60])
+        f, a = c.func.id, c.args
+        if f == "Forward" and len(a) == 5:
+            return "(AForward %s %s %s %s %s)" % (self.z(a[0]), self.z(a[1]), self.bool_c(a[2]), self.bool_c(a[3]), self.st_c(a[4]))
+        if f == "Reverse" and len(a) == 3:
+            return "(AReverse %s %s %s)" % (self.z(a[0]), self.z(a[1]), self.bool_c(a[2]))
+        if f in ("Copy", "Move") and len(a) == 3:
+            return "(A%s %s %s %s)" % (f, self.z(a[0]), self.st_c(a[1]), self.st_c(a[2]))
+        if f in ("EndForward", "EndReverse") and not a:
+            return "A" + f
+        raise Untranslatable("action " + f)
+
+    def stmts(self, body):
+        body = _strip_doc(body)
+        if not body:
+            return "SSkip"
+        parts = [self.stmt(x) for x in body]
+        out = parts[-1]
+        for x in reversed(parts[:-1]):
+            out = "(SSeq %s %s)" % (x, out)
+        return out
+
+    def stmt(self, s):
+        if isinstance(s, ast.If):
+            return "(SIf %s %s %s)" % (self.b(s.test), self.stmts(s.body), self.stmts(s.orelse))
+        if isinstance(s, ast.While) and not s.orelse:
+            return "(SWhile %s %s)" % (self.b(s.test), self.stmts(s.body))
+        if isinstance(s, ast.Break):
+            return "SBreak"
+        if isinstance(s, ast.Raise) and isinstance(s.exc, ast.Call) and isinstance(s.exc.func, ast.Name) and s.exc.func.id in GEXN and s.cause is None:
+            return "(SRaise %s)" % GEXN[s.exc.func.id]
+        if isinstance(s, ast.Expr) and isinstance(s.value, ast.Yield) and s.value.value is not None:
+            return "(SYield %s)" % self.action(s.value.value)
+        if isinstance(s, ast.Assign) and len(s.targets) == 1:
+            t = s.targets[0]
+            if isinstance(t, ast.Name) and t.id in LOCALS:
+                return "(SSetL %s %s)" % (LOCALS[t.id], self.z(s.value))
+            a = _self_attr(t)
+            if a == "_n":
+                return "(SSetN %s)" % self.z(s.value)
+            if a == "_r":
+                return "(SSetR %s)" % self.z(s.value)
+            if a == "_exhausted":
+                return "(SSetExh %s)" % self.bool_c(s.value)
+        raise Untranslatable("statement " + ast.dump(s)[:100])
+
+
+def gen_basic(repo):
+    tree = ast.parse(open(os.path.join(repo, "checkpoint_schedules", "basic_schedules.py")).read())
+    classes = {c.name: c for c in ast.walk(tree) if isinstance(c, ast.ClassDef)}
+    # the protocol around the generator (schedule.py): what next() / iter() / n / r / max_n do, as the model assumes -- compared as text
+    stree = ast.parse(open(os.path.join(repo, "checkpoint_schedules", "schedule.py")).read())
+    base = [c for c in ast.walk(stree) if isinstance(c, ast.ClassDef) and c.name == "CheckpointSchedule"]
+    if len(base) != 1:
+        raise Untranslatable("class CheckpointSchedule")
+    bm = _methods(base[0])
+    EXPECT = {
+        "__init__": ("self, max_n=None", "if max_n is not None and max_n < 1:\n    raise ValueError('max_n must be positive')\nself._n = 0\nself._r = 0\nself._max_n = max_n"),
+        "__init_subclass__": ("cls, **kwargs", "super().__init_subclass__(**kwargs)\ncls_iter = cls._iterator\n@functools.wraps(cls_iter)\ndef _iterator(self):\n    if not hasattr(self, '_iter'):\n        self._iter = cls_iter(self)\n    return self._iter\ncls._iterator = _iterator"),
+        "__iter__": ("self", "return self"),
+        "__next__": ("self", "return next(self._iterator())"),
+        "n": ("self", "return self._n"), "r": ("self", "return self._r"), "max_n": ("self", "return self._max_n"),
+    }
+    for name, (args, body) in EXPECT.items():
+        f = bm.get(name)
+        if f is None:
+            raise Untranslatable("CheckpointSchedule.%s not found" % name)
+        got = "\n".join(ast.unparse(x) for x in _strip_doc(f.body))
+        if ast.unparse(f.args) != args or got != body:
+            raise Untranslatable("CheckpointSchedule.%s is not the protocol the model assumes: (%s) %r" % (name, ast.unparse(f.args), got[:120]))
+    out = ["(* GENERATED by harness/translate.py from checkpoint_schedules/basic_schedules.py (the three _iterator generators) -- do not edit *)",
+           "From Coq Require Import ZArith List Bool.", "From CS Require Import Actions Online GenLang GenBasic.", "Open Scope Z_scope.", ""]
+    for cls, nm in (("NoneCheckpointSchedule", "none"), ("SingleMemoryStorageSchedule", "mem"), ("SingleDiskStorageSchedule", "disk")):
+        if cls not in classes:
+            raise Untranslatable("class %s not found" % cls)
+        ms = _methods(classes[cls])
+        f = ms.get("_iterator")
+        if f is None or [a.arg for a in f.args.args] != ["self"] or f.decorator_list:
+            raise Untranslatable("%s._iterator(self)" % cls)
+        for m in ("__next__", "__iter__", "finalize", "n", "r", "max_n", "is_running"):
+            if m in ms:
+                raise Untranslatable("%s overrides %s" % (cls, m))
+        # __init__: the attributes the generator reads start as the model says
+        fi, asg, sup = _init_assigns(classes[cls])
+        if sup is None or sup.args or sup.keywords:
+            raise Untranslatable("%s.__init__: super().__init__() with no argument" % cls)
+        if nm in ("none", "disk") and not ("_exhausted" in asg and isinstance(asg["_exhausted"], ast.Constant) and asg["_exhausted"].value is False):
+            raise Untranslatable("%s.__init__ does not set self._exhausted = False" % cls)
+        if nm == "disk":
+            if [a.arg for a in fi.args.args] != ["self", "move_data"] or not (isinstance(asg.get("_move_data"), ast.Name) and asg["_move_data"].id == "move_data"):
+                raise Untranslatable("SingleDiskStorageSchedule.__init__(self, move_data): self._move_data = move_data")
+        ex = ms.get("is_exhausted")
+        exb = _strip_doc(ex.body) if ex is not None else []
+        want = "self._exhausted" if nm in ("none", "disk") else "False"
+        if len(exb) != 1 or not isinstance(exb[0], ast.Return) or ast.unparse(exb[0].value) != want:
+            raise Untranslatable("%s.is_exhausted is not `return %s`" % (cls, want))
+        out += ["Definition %s_prog : stmt :=" % nm, "  %s." % GenTr().stmts(f.body),
+                "Lemma %s_prog_is_model : %s_prog = GenBasic.%s_prog_model." % (nm, nm, nm), "Proof. reflexivity. Qed.", ""]
+    return "\n".join(out) + "\n"
+
+
+GENERATORS["BasicGen"] = gen_basic
+
 
 if __name__ == "__main__":
     repo = os.environ.get("VERIF_REPO", "/repo")
